@@ -978,6 +978,11 @@ func (as *AbacoSource) readerMainLoop() {
 	defer ticker.Stop()
 	as.lastread = time.Now()
 
+	// Frames and bytes filled in for missing packets but not yet reported in a buffers message.
+	// They are kept when a tick is abandoned for lack of data, so that no dropped data go unreported.
+	var droppedFrames int
+	var droppedBytes int
+
 awaitmoredata:
 	for {
 		select {
@@ -993,8 +998,6 @@ awaitmoredata:
 		case <-ticker.C:
 			// read from the UDP port or ring buffer
 			var lastSampleTime time.Time
-			var droppedFrames int
-			var droppedBytes int
 			for _, pp := range as.producers {
 				allPackets, err := pp.ReadAllPackets()
 				lastSampleTime = time.Now()
@@ -1084,6 +1087,8 @@ awaitmoredata:
 				droppedBytes:   droppedBytes,
 				droppedFrames:  droppedFrames,
 			}
+			droppedFrames = 0
+			droppedBytes = 0
 			if bytesProcessed > 0 {
 				timeout.Reset(timeoutPeriod)
 			}
